@@ -148,6 +148,7 @@ func (e *Engine) checkExpandSubject(r *relationTuple, restDepth int) checkgroup.
 				WithField("results", len(results)).
 				Debug("too many results, truncating")
 			results = results[:maxWidth-1]
+			checkgroup.MarkCutOff(ctx)
 		}
 		for _, result := range results {
 			sub := &relationtuple.SubjectSet{
